@@ -1013,6 +1013,7 @@ class Checker:
             return res
         sites = [SITES[s] for s, _ in plan]
         nearest = None
+        closest = None  # the baseline that differs in the fewest canonical files (later = more specific mode wins ties)
         n_base = 0
         for modes in itertools.product(*[range(len(s.modes)) for s in sites]):
             b = self.baseline(world, seq, plan, modes)
@@ -1024,12 +1025,18 @@ class Checker:
                 return res
             if nearest is None:
                 nearest = (modes, b)
+            n_diff = sum(1 for k in CANON if b[k] != r["logs"][k])
+            if closest is None or n_diff <= closest[0]:
+                closest = (n_diff, modes, b)
         if nearest is None:
             raise HarnessError("no baseline of %r completed on %s" % (plan, world))
-        f, det = _first_diff(r["logs"], nearest[1])
-        res.update(status="logs", file=f, n_base=n_base, logs_bytes=r["logs"],
-                   what="canonical logs equal none of the %d off/idle baselines; vs baseline [%s] (faulted vs baseline) %s" % (
-                       n_base, "+".join(s.modes[m].name for s, m in zip(sites, nearest[0])), det))
+        f, det = _first_diff(r["logs"], nearest[1])  # the signature names the file that differs from the FIRST baseline
+        what = "canonical logs equal none of the %d off/idle baselines; vs baseline [%s] (faulted vs baseline) %s" % (
+            n_base, "+".join(s.modes[m].name for s, m in zip(sites, nearest[0])), det)
+        if closest is not None and closest[1] != nearest[0]:
+            what += "; vs closest baseline [%s] %s" % ("+".join(s.modes[m].name for s, m in zip(sites, closest[1])),
+                                                      _first_diff(r["logs"], closest[2])[1])
+        res.update(status="logs", file=f, n_base=n_base, logs_bytes=r["logs"], what=what)
         return res
 
 
